@@ -36,6 +36,9 @@ def _pl(*locs):
 
 
 _KEEP = ["buf_mem_same(buf)"]
+# every message parser consumes EXACTLY the message: type byte, uint24 length, and that many bytes (the outermost
+# pull_block refuses anything else) - what makes the dispatcher's final `assert input_buf.eof()` unreachable
+_WHOLE = ["buf.g_pos == old(buf.g_pos) + 4 + be3(buf.g_mem, old(buf.g_pos) + 1)"]
 
 # ------------------------------------------------------------------------------------------------ item parsers
 R.contract("pull_key_share", returns="tuple[int,bytes]", raises={BRE: None}, modifies=["buf.g_pos"], ensures=_KEEP + ["0 <= result[0] < 65536"], **_P)
@@ -59,7 +62,7 @@ R.contract(
     raises={BRE: None, ADE: None},
     modifies=["buf.g_pos"],
     inline_loops=_pl("hello.supported_version", "hello.key_share", "hello.pre_shared_key", "hello.other_extensions"),
-    ensures=_KEEP,
+    ensures=_KEEP + _WHOLE,
     check_frame=True,
     **_P,
 )
@@ -74,7 +77,7 @@ R.contract(
     modifies=["buf.g_pos"],
     inline_loops=_pl("hello.key_share", "hello.supported_versions", "hello.signature_algorithms", "hello.supported_groups", "hello.psk_key_exchange_modes",
                      "hello.server_name", "hello.alpn_protocols", "hello.early_data", "hello.pre_shared_key", "hello.other_extensions"),
-    ensures=_KEEP,
+    ensures=_KEEP + _WHOLE,
     check_frame=True,
     **_P,
 )
@@ -87,7 +90,7 @@ R.contract(
     raises={BRE: None, ADE: None},
     modifies=["buf.g_pos"],
     inline_loops=_pl("new_session_ticket.max_early_data_size", "new_session_ticket.other_extensions"),
-    ensures=_KEEP + ["0 <= result.ticket_lifetime < 4294967296"],
+    ensures=_KEEP + _WHOLE + ["0 <= result.ticket_lifetime < 4294967296", "len(result.ticket_nonce) <= 255"],
     check_frame=True,
     **_P,
 )
@@ -101,7 +104,7 @@ R.contract(
     raises={BRE: None, ADE: None},
     modifies=["buf.g_pos"],
     inline_loops=_pl("extensions.alpn_protocol", "extensions.early_data", "extensions.other_extensions"),
-    ensures=_KEEP,
+    ensures=_KEEP + _WHOLE,
     check_frame=True,
     **_P,
 )
@@ -113,7 +116,7 @@ R.contract(
     raises={BRE: None, ADE: None},
     modifies=["buf.g_pos"],
     inline_loops=_pl(),
-    ensures=_KEEP,
+    ensures=_KEEP + _WHOLE,
     check_frame=True,
     **_P,
 )
@@ -125,7 +128,7 @@ R.contract(
     raises={BRE: None, ADE: None},
     modifies=["buf.g_pos"],
     inline_loops=_pl("certificate_request.signature_algorithms", "certificate_request.other_extensions"),
-    ensures=_KEEP,
+    ensures=_KEEP + _WHOLE,
     check_frame=True,
     **_P,
 )
@@ -133,5 +136,5 @@ R.contract(
 # the C17 variants (pull_certificate_verify#c17, pull_finished#c17: contracts/quic_codecs.py) state exactly WHEN these two
 # fail and what they return; the plain contracts are what the handlers' call sites use
 R.contract("pull_certificate_verify", returns="CertificateVerify", requires=[_type_byte(15)], raises={BRE: None, ADE: None}, modifies=["buf.g_pos"],
-           ensures=_KEEP + ["0 <= result.algorithm < 65536"], check_frame=True, **_P)
-R.contract("pull_finished", returns="Finished", requires=[_type_byte(20)], raises={BRE: None}, modifies=["buf.g_pos"], ensures=_KEEP, check_frame=True, **_P)
+           ensures=_KEEP + _WHOLE + ["0 <= result.algorithm < 65536"], check_frame=True, **_P)
+R.contract("pull_finished", returns="Finished", requires=[_type_byte(20)], raises={BRE: None}, modifies=["buf.g_pos"], ensures=_KEEP + _WHOLE, check_frame=True, **_P)
